@@ -184,6 +184,24 @@ def d3(cx: Cx, ob: Ob) -> None:
     me = ("param", fn.self_name)
     prov = Prov(s)
     found = False
+    # the requested names are taken as given: a copy of the request that leaves out anything but None
+    # (a truthiness filter drops the empty prefix, which is a legitimate name) selects from less than was asked for
+    req0 = ("param", fn.params[1].name)
+    seen_f = set()
+    for t0, ev0, _ in s.all_terms():
+        for x in subterms(t0):
+            if op(x) == "comp" and len(x[3]) == 1 and x[3][0][1] == req0 and x[2] == x[3][0][0]:
+                for c_ in x[3][0][2]:
+                    ok_ = (op(c_) == "cmp" and c_[1] in ("is not", "!=") and c_[2] == x[2] and is_const(c_[3], None)) or (op(c_) == "call" and c_[1] == ("builtin", "isinstance") and c_[2][:1] == (x[2],))
+                    if not ok_ and show(c_) not in seen_f:
+                        seen_f.add(show(c_))
+                        ob.violate(
+                            fn.qualname,
+                            where(fn, ev0.line),
+                            f"get_subconverter drops the requested names for which `{show(c_)[:50]}` fails before selecting: a record asked for by such a name (the empty prefix '' is falsy) is not kept",
+                            witness="get_subconverter(['']) on a converter whose default namespace has the prefix '' returns an empty converter",
+                            detail="request-filter",
+                        )
     for t, ctx in s.returns():
         ctor = [x for x in subterms(t) if op(x) == "call" and ((op(x[1]) == "cls" and x[1][1] == CONV) or x[1] == ("attr", me, "__class__") or x[1] == ("call", ("builtin", "type"), (me,), ()))]
         if not ctor:
